@@ -268,6 +268,14 @@ fn make_project(case: &Case, dir: &Path) -> Project {
         std::fs::write(&p, bytes).unwrap();
     }
     let mut msgs = NullMessages;
+    let mut p = Project::from_config(build_config(case, dir, None), &mut msgs);
+    p.enable_all_linters();
+    p
+}
+
+/// the configuration of the case (after a reload directive): the standard libraries by `std_mode` + the case's toml
+fn build_config(case: &Case, dir: &Path, directive: Option<&str>) -> Config {
+    let mut msgs = NullMessages;
     let mut cfg = Config::default();
     match case.std_mode.as_str() {
         "full" => cfg.load_external_config(&mut msgs, Some("/repo/vhdl_libraries".to_string())),
@@ -277,15 +285,10 @@ fn make_project(case: &Case, dir: &Path) -> Project {
         }
         _ => {}
     }
-    let mut toml = String::from("[libraries]\n");
-    for (lib, files) in &case.libs {
-        toml.push_str(&format!("{}.files = [{}]\n", lib, files.iter().map(|f| format!("'{}'", f)).collect::<Vec<_>>().join(", ")));
-    }
+    let toml = gen::case_toml(case, directive);
     let c = Config::from_str(&toml, dir).unwrap();
     cfg.append(&c, &mut msgs);
-    let mut p = Project::from_config(cfg, &mut msgs);
-    p.enable_all_linters();
-    p
+    cfg
 }
 
 // ------------------------------------------------------------------------------------------------
@@ -863,6 +866,13 @@ fn run_case(case: &Case, dir: &Path, hb: &Heartbeat, out: &Out, opts: &Opts) -> 
             hb.set(json!({"case": case_upto(case, step), "step": step, "phase": "Source::change + update_source (parse)"}));
             let path = dir.join(&e.file);
             let res = catch_unwind(AssertUnwindSafe(|| {
+                if e.kind.starts_with("reload-config") {
+                    // vhdl_ls.toml rewritten + reload notification: VHDLServer::reload_project -> Project::update_config
+                    let cfg = build_config(case, dir, Some(&e.text));
+                    let mut msgs = NullMessages;
+                    project.update_config(cfg, &mut msgs);
+                    return;
+                }
                 match project.get_source(&path) {
                     Some(src) => {
                         match e.range {
@@ -882,7 +892,9 @@ fn run_case(case: &Case, dir: &Path, hb: &Heartbeat, out: &Out, opts: &Opts) -> 
                 sc.report("panic", "update_source", panic_text(&e), None);
                 return (stats, nviol);
             }
-            edited = Some((e.file.clone(), e.range.map(|r| r[0]).unwrap_or(0)));
+            if !e.kind.starts_with("reload-config") {
+                edited = Some((e.file.clone(), e.range.map(|r| r[0]).unwrap_or(0)));
+            }
         }
         hb.set(json!({"case": case_upto(case, step), "step": step, "phase": "Project::analyse"}));
         let tokens = state_tokens(&project, case, dir);
@@ -904,7 +916,7 @@ fn run_case(case: &Case, dir: &Path, hb: &Heartbeat, out: &Out, opts: &Opts) -> 
         check_diags(&project, &mut sc, &diags);
         // files to query: the edited one, plus one other; at step 0 and at the last step all of them
         let mut qfiles: Vec<String> = vec![];
-        let lean = case.family == "kinds" || case.family == "lits" || case.family == "cycles";
+        let lean = case.family == "kinds" || case.family == "lits" || case.family == "cycles" || case.family == "xunit";
         let batch = case.family.ends_with("-batch");
         if lean && step > 0 && step < nsteps {
             // per-site sweep of the kind-confusion family: thousands of states that differ in one line
@@ -915,7 +927,7 @@ fn run_case(case: &Case, dir: &Path, hb: &Heartbeat, out: &Out, opts: &Opts) -> 
             if let Some((f, _)) = &edited {
                 qfiles.push(f.clone());
             }
-        } else if step == 0 || step == nsteps {
+        } else if step == 0 || step == nsteps || case.edits[step - 1].kind.starts_with("reload-config") {
             qfiles = case.files.iter().map(|(n, _)| n.clone()).collect();
         } else {
             if let Some((f, _)) = &edited {
@@ -1341,11 +1353,24 @@ fn main() {
             let m = minimize(case, &want, &dir);
             std::fs::write(&args[3], serde_json::to_string_pretty(&m.to_json()).unwrap()).unwrap();
         }
+        "diag" => {
+            // c03 diag <cases.json> <workdir>: diagnostics of the initial state of every case (generator self-test)
+            install_hook();
+            let v: Value = serde_json::from_str(&std::fs::read_to_string(&args[2]).unwrap()).unwrap();
+            for c in v.as_array().unwrap().iter().filter_map(Case::from_json) {
+                let mut p = make_project(&c, Path::new(&args[3]));
+                for d in p.analyse() {
+                    println!("{} {} {}:{} {:?} {}", c.id, d.pos.source.file_name().display(), d.pos.range.start.line + 1, d.pos.range.start.character, d.code, d.message);
+                }
+            }
+        }
         "famcases" => {
             // c03 famcases cycles <seed> <out.json>: the cases of a family that runs in its own process
             let seed: u64 = args[3].parse().unwrap();
             let cases = match args[2].as_str() {
                 "cycles" => gen::cycle_cases(seed),
+                "xunit" => gen::xunit_cases(seed, false),
+                "xunit-all" => gen::xunit_cases(seed, true),
                 _ => vec![],
             };
             let v: Vec<Value> = cases.iter().map(|c| c.to_json()).collect();
